@@ -74,12 +74,19 @@ def jOut : Out → Json
   | .unit => Json.null
   | .err e => jErr e
 
-/-- the full observation of a poset with `n` elements -/
-def obsOps (n : Nat) : List (Op Nat) :=
+/-- the full observation of a poset over `E`: all comparisons, the four relations of every index, tops, bottoms,
+    join/meet of everything; for at most 4 elements also join/meet of every pair, the index of every element and
+    equality with the reversed poset -/
+def obsOps (E : List Nat) : List (Op Nat) :=
+  let n := E.length
   let r := List.range n
   (r.flatMap fun i => r.map fun j => Op.leq i j)
   ++ (r.flatMap fun i => [Op.closed .desc i, Op.closed .anc i, Op.direct .desc i, Op.direct .anc i])
   ++ [Op.extremes .anc, Op.extremes .desc, Op.bound .anc [], Op.bound .desc []]
+  ++ (if n ≤ 4 then
+        (r.flatMap fun i => (r.filter (fun j => i < j)).flatMap fun j => [Op.bound .anc [i, j], Op.bound .desc [i, j]])
+        ++ E.map (fun e => Op.index e) ++ [Op.eqOther E.reverse]
+      else [])
 
 def lexLt : List Nat → List Nat → Bool
   | [], [] => false
@@ -133,7 +140,7 @@ def runH : Handler := fun j => do
         let fields := [("out", jOut r.2), ("fresh", jOut fr), ("ok", Json.bool ok),
           ("inv", Json.bool (Fresh.invCheck leq s'))]
         let fields := if observe == "all" || (observe == "last" && rest.isEmpty) then
-            let oo := obsOps s'.elems.length
+            let oo := obsOps s'.elems
             let mo := (run leq ord s' oo).2
             let fo := Fresh.runFresh leq s'.elems oo
             fields ++ [("obs_eq", Json.bool (mo == fo)), ("obs", Json.arr (fo.map jOut).toArray)]
